@@ -22,6 +22,7 @@ var guardedGlobals = map[string]string{
 
 func (r *Run) setMonitor(on bool) {
 	r.monitor = on
+	r.atomicLoaded = nil
 }
 
 func (r *Run) markShared(v Value) {
